@@ -196,6 +196,27 @@ def extra_obligations(mods, tier, seed):
                     "where": f"'{name}': firmware identical under {len(relayouts(src, rnd))} re-layouts (trailing comments, comment lines at "
                              "any column, blank lines, indent unit 1-8/tab, trailing blanks, space before ':')",
                     "time": round(time.time() - t0, 3), "replay": {"failing": bad[:3]}, "replay_confirmed": bool(bad)})
+    # (1b) the same re-layouts on seeded generated programs (helpers, nested loops, branches, comprehension, lists; fixed seeds)
+    from progs.gen import programs as _gen_programs
+    t0g = time.time()
+    gbad, gn = [], 0
+    for gname, gsrc in sorted(_gen_programs(10 if tier != "thorough" else 60, seed=0).items()):
+        try:
+            ref = E.emit(P.parse(gsrc))
+        except (ValueError, SyntaxError):
+            continue
+        for tag, variant in relayouts(gsrc, rnd).items():
+            gn += 1
+            try:
+                got = E.emit(P.parse(variant))
+            except Exception as ex:
+                got = f"<{type(ex).__name__}: {ex}>"
+            if got != ref:
+                gbad.append({"program": gname, "relayout": tag, "first_difference": next((f"{a!r} vs {b!r}" for a, b in zip(ref.splitlines(), got.splitlines()) if a != b), "length differs"),
+                             "script": variant[:600]})
+    out.append({"name": "C07/layout/generated-programs", "status": "discharged" if not gbad else "sat", "backend": "enum", "bounded": True,
+                "where": f"{gn} (generated program, re-layout) pairs: the firmware text is identical to that of the plainly laid out program",
+                "time": round(time.time() - t0g, 3), "replay": {"failing": gbad[:3]}, "replay_confirmed": bool(gbad)})
     # (2) fall-through of the dispatcher: nothing outside the allow-list may vanish silently
     for name, (src, marker) in DROP_PROBES.items():
         t1 = time.time()
